@@ -107,6 +107,43 @@ def work(item):
                     acc.query(prover, None, f"{v.name} {side}", f"finite(out[{i}])", s.d, D, pc, on_sat_d, sample=False, retry_envs=penv)
         for kind, cond, opc, note in obl:
             acc.query(prover, None, f"{v.name} numpy", note, cond, D, opc, lambda m: None, sample=False)
+        # boundary arguments given as STRUCTURAL zeros of a sparse CasADi vector (first / last entry of a vector argument):
+        # the CasADi primitive must return what the NumPy primitive returns when that entry is the number 0
+        if exc is None:
+            for a_ in v.args:
+                if a_.is_static or a_.n < 2:
+                    continue
+                for idx in (0, a_.n - 1):
+                    zv = z3.Real(f"{a_.name}[{idx}]")
+                    D0 = list(D) + [zv == 0]
+                    chk = z3.Solver()
+                    chk.set("timeout", 5000)
+                    chk.add(*D0, *pc)
+                    if str(chk.check()) != "sat":
+                        continue  # a zero there is not admissible for this variant (or not on this path)
+                    for st in ("SX", "MX"):
+                        tag = f"{v.name} numpy vs {st}, {a_.name}[{idx}] a structural zero"
+                        try:
+                            cz, Fz, sargs_z, _ = prims.run_casadi(v, st, (a_.name, idx))
+                        except (symx.UnsupportedOp, symx.Inconclusive) as e:
+                            acc.inconclusive(f"{tag}: {e}")
+                            continue
+                        except Exception as e:  # noqa
+                            acc.d["violations"].append(viol(v, st, f"CasADi {st} primitive raised {type(e).__name__}: {str(e)[:200]} when {a_.name}[{idx}] is a structural zero of a sparse vector", None))
+                            continue
+                        ex["sparse_zero_encodings"] = ex.get("sparse_zero_encodings", 0) + 1
+                        if len(cz) != len(nvals):
+                            acc.d["violations"].append(viol(v, st, f"with {a_.name}[{idx}] a structural zero the CasADi {st} result has {len(cz)} entries, NumPy {len(nvals)}", None))
+                            continue
+                        for i, (a, b) in enumerate(zip(nvals, cz)):
+                            def on_sat_z(model, i=i, st=st, sz=(a_.name, idx)):
+                                env2 = sample_env(v, rng)
+                                env2.update({k: x for k, x in (model or {}).items() if k in env2})
+                                env2[f"{sz[0]}[{sz[1]}]"] = 0.0
+                                return replay_point(v, st, env2, i, sparse_zero=sz)
+
+                            a0 = z3.substitute(a.t, (zv, z3.RealVal(0)))
+                            acc.query(prover, None, tag, f"out[{i}] equal", a0 == b.t, D0, pc, on_sat_z, retry_envs=[dict(e_, **{f"{a_.name}[{idx}]": 0.0}) for e_ in penv_all(v, rng)])
     # plain-execution companion: integer-dtype arrays holding whole numbers must give what float arrays give
     import numpy as np
     for trial in range(3):
@@ -142,6 +179,10 @@ def work(item):
     return acc.done(prover)
 
 
+def penv_all(v, rng):
+    return [{k: x for k, x in sample_env(v, rng).items() if k.split("[")[0] in prims.POS | {"alpha"}} for _ in range(3)]
+
+
 def _tb(c, env):
     try:
         return bool(zeval.evalf(c, env))
@@ -154,18 +195,19 @@ def viol(v, st, what, rec):
             "replay": rec or {"property": PID, "kind": "structural", "variant": v.name, "symtype": st, "what": what}}
 
 
-def replay_point(v, st, env, i, verbose=False):
+def replay_point(v, st, env, i, verbose=False, sparse_zero=None):
     a, e1 = prims.run_numpy_float(v, env)
-    F, sargs = prims.casadi_function(v, st)
+    F, sargs = prims.casadi_function(v, st, tuple(sparse_zero) if sparse_zero else None)
     b = prims.run_casadi_float(F, sargs, env)
+    note = f" ({sparse_zero[0]}[{sparse_zero[1]}] = 0 given to CasADi as a structural zero of a sparse vector)" if sparse_zero else ""
     if verbose:
-        print(f"{v.name}: numpy={a} casadi[{st}]={b} exc={e1!r}")
+        print(f"{v.name}{note}: numpy={a} casadi[{st}]={b} exc={e1!r}")
     if e1 is not None or a is None:
         return None
     if numrun.close(a[i], b[i], 1e-7, 1e-9):
         return None
-    return viol(v, st, f"out[{i}]: NumPy = {a[i]!r}, CasADi {st} = {b[i]!r} at {env}",
-                {"property": PID, "kind": "differ", "variant": v.name, "symtype": st, "env": env, "i": i})
+    return viol(v, st, f"out[{i}]: NumPy = {a[i]!r}, CasADi {st} = {b[i]!r} at {env}{note}",
+                {"property": PID, "kind": "differ", "variant": v.name, "symtype": st, "env": env, "i": i, "sparse_zero": list(sparse_zero) if sparse_zero else None})
 
 
 def replay_finite(v, side, st, env, i, verbose=False):
@@ -191,7 +233,7 @@ def replay(rec):
         return 1
     v = V[rec["variant"]]
     if rec["kind"] == "differ":
-        return 1 if replay_point(v, rec["symtype"], rec["env"], rec["i"], True) else 0
+        return 1 if replay_point(v, rec["symtype"], rec["env"], rec["i"], True, rec.get("sparse_zero")) else 0
     return 1 if replay_finite(v, rec["side"], rec["symtype"], rec["env"], rec["i"], True) else 0
 
 
@@ -209,7 +251,7 @@ def main():
     cov = netcheck.base_coverage(
         tot, levels, samples, st, len(items),
         "program = primitive variant (primitive x option variant x argument shape); per variant and NumPy path: one equality query per result entry "
-        "for SX and for MX, one definedness query per entry and side that can be undefined; non-trivial = not closed syntactically",
+        "for SX and for MX, one definedness query per entry and side that can be undefined; plus, for the first and the last entry of every vector argument where a zero is admissible, the CasADi primitive re-executed with that entry a structural zero of a sparse vector == the NumPy terms at 0; non-trivial = not closed syntactically",
         {"bounds": {"primitives": sorted({v.prim for v in V}), "variants": len(V), "vector_lengths": "0-d, 1, 2, 3", "values": "all reals (equality, L1) / admissible domain with zeros (definedness)"},
          "definedness_queries": extra.get("definedness_queries", 0), "cvc5_agreement": cvc5_stats,
          "functions_encoded": ["engines.numpy: NodesEngine, LinksEngine, OriginsEngine, DestinationsEngine, Engine.max, Engine.vcat",
